@@ -115,12 +115,15 @@ func lexExpr(s string) ([]etok, error) {
 		case c == '"':
 			j := i + 1
 			for j < len(s) && s[j] != '"' {
+				if s[j] == '\\' {
+					j++ // escaped character
+				}
 				j++
 			}
 			if j >= len(s) {
 				return nil, fmt.Errorf("unterminated string literal in %q", s)
 			}
-			toks = append(toks, etok{"str", strings.NewReplacer(`\n`, "\n", `\t`, "\t").Replace(s[i+1 : j])})
+			toks = append(toks, etok{"str", strings.NewReplacer(`\n`, "\n", `\t`, "\t", `\"`, `"`, `\\`, `\`).Replace(s[i+1 : j])})
 			i = j + 1
 		case unicode.IsLetter(rune(c)) || c == '_' || c == '$':
 			j := i
